@@ -33,6 +33,8 @@ func runC07(c *Ctx) {
 	ruleCompletedOnlyOnSuccess(c, "R7.5")
 	ruleChainInfoInputs(c, "R7.6")
 	ruleJoinerCatchesUp(c, "R7.7")
+	ruleAggregation(c, "R7.8")      // across the switch the aggregator reads threshold and size of the group that is live at each round
+	ruleIndexConsistency(c, "R7.9") // a node keeps the index its share was dealt for
 }
 
 // R7.1 -------------------------------------------------------------------------------------------
